@@ -30,15 +30,21 @@ func TestVerifDisplay(t *testing.T) {
 			bs = vStreamStray(r)
 		}
 		delay := []time.Duration{time.Millisecond, 5 * time.Millisecond, 20 * time.Millisecond}[r.Intn(3)]
-		chunk := 1 + r.Intn(9)
+		chunkList := []int{1 + r.Intn(9), 4096}
+		switch i % 6 {
+		case 2:
+			chunkList = append(chunkList, 0) // the last bytes arrive together with end of file
+		case 4:
+			chunkList = []int{8192, 0}
+		}
 		if rp != nil {
 			bs = vUnhx(rp["stream"])
 			frames = vFramesOf(start, bs)
 			delay, _ = time.ParseDuration(rp["delay"])
-			chunk = vInts(rp["chunks"])[0]
+			chunkList = vInts(rp["chunks"])
 		}
 		var cfg jsonconfig.Config
-		op := fmt.Sprintf("display delay=%v chunks=%d,4096 stream=%s", delay, chunk, vhx(bs))
+		op := fmt.Sprintf("display delay=%v chunks=%s stream=%s", delay, vIntsText(chunkList), vhx(bs))
 		vMark(op)
 		// reference: instant writer, read after quiescence
 		refW := &slowWriter{}
@@ -64,7 +70,7 @@ func TestVerifDisplay(t *testing.T) {
 			done := make(chan struct{})
 			go func() {
 				defer close(done)
-				HandleMessages(start, &chunked{data: append([]byte{}, bs...), chunks: []int{chunk, 4096}}, w, &cfg)
+				HandleMessages(start, &chunked{data: append([]byte{}, bs...), chunks: chunkList}, w, &cfg)
 			}()
 			select {
 			case <-done:
